@@ -14,6 +14,7 @@ import (
 	"encoding/pem"
 	"fmt"
 	"math/big"
+	"net"
 	"strings"
 	"testing"
 	"time"
@@ -43,25 +44,27 @@ const (
 	fAKI // not enforced by the verifier (key ids only order the candidates): nothing is asserted, see spec.json
 	fSHA1Link
 	fCriticalExt
+	fIntSAN // an intermediate's own SAN violates a constraint of a CA above it while the leaf conforms
 	nFaults
 )
 
 var faultNames = []string{"none", "wrong-key-link", "intermediate-expired", "intermediate-not-yet-valid", "leaf-expired", "leaf-not-yet-valid",
 	"intermediate-not-ca", "intermediate-no-certsign", "path-length-exceeded", "nc-permitted-violated", "nc-excluded-violated", "eku-mismatch",
-	"root-not-in-pool", "only-unrelated-root", "issuer-name-mismatch", "aki-mismatch(soft)", "sha1-link", "unknown-critical-extension"}
+	"root-not-in-pool", "only-unrelated-root", "issuer-name-mismatch", "aki-mismatch(soft)", "sha1-link", "unknown-critical-extension", "intermediate-san-violates-constraint"}
 
 // benign variations (bit mask)
 const (
 	bNoKeyUsage    = 1 << iota // CAs carry no key usage extension at all
 	bExactPathLen              // every CA carries the tightest path length that still fits
-	bNCSatisfied               // the root permits example.com / excludes bad.example.com and the leaf complies
+	bNCSatisfied               // the root carries permitted and excluded constraints of all four name kinds and everything below complies
 	bCNOutside                 // leaf CommonName lies outside the permitted subtree while its SANs comply (soft)
 	bCAEKU                     // CAs list serverAuth+clientAuth
 	bLeafEKU                   // leaf lists serverAuth
 	bEdgeValidity              // leaf NotAfter == verification time, issuer NotBefore == verification time
 	bNoise                     // pool holds a CA with the leaf issuer's name but another key
 	bUnsetPathLen              // CAs use MaxPathLen -1 instead of the zero value
-	nBenignBits    = 9
+	bIntSAN                    // intermediates carry SANs of all four kinds that conform to every constraint used here
+	nBenignBits    = 10
 )
 
 type chainCase struct {
@@ -79,6 +82,7 @@ type chainCase struct {
 	Lazy       bool  // pools built with AppendCertsFromPEM (lazily parsed) instead of AddCert
 	Benign     int
 	ReqEKU     int // 0 none given (= serverAuth), 1 [serverAuth], 2 [clientAuth, serverAuth], 3 [any]
+	SANKind    int // name kind of the intermediate-SAN fault: 0 DNS, 1 IP, 2 email, 3 URI
 }
 
 // truth is what the harness knows about a certificate it had made.
@@ -95,6 +99,15 @@ type truth struct {
 	permDNS    []string
 	exclDNS    []string
 	dns        []string
+	permIP     []*net.IPNet
+	exclIP     []*net.IPNet
+	ips        []net.IP
+	permEmail  []string
+	exclEmail  []string
+	emails     []string
+	permURI    []string
+	exclURI    []string
+	uris       []string
 	eku        []x509.ExtKeyUsage
 	critExt    bool
 	sha1Signed bool
@@ -117,7 +130,7 @@ func (c chainCase) normalize() chainCase {
 	switch c.Fault {
 	case fIntExpired, fIntNotYet, fIntNotCA, fIntNoCertSign:
 		needInt = 1
-	case fPathLen:
+	case fPathLen, fIntSAN:
 		needInt = 1
 	}
 	if c.Cross && needInt < 1 {
@@ -136,9 +149,10 @@ func (c chainCase) normalize() chainCase {
 	if c.Fault == fEKU && c.ReqEKU == 3 {
 		c.ReqEKU = 1 // "any" switches the check off
 	}
-	if c.Fault == fNCPermitted || c.Fault == fNCExcluded {
+	if c.Fault == fNCPermitted || c.Fault == fNCExcluded || c.Fault == fIntSAN {
 		c.Benign &^= bNCSatisfied | bCNOutside
 	}
+	c.SANKind &= 3
 	if c.Fault == fPathLen {
 		c.Benign &^= bExactPathLen
 	}
@@ -187,8 +201,16 @@ func (p *pki) issue(t *truth, serial int64, signer *truth, signKey crypto.Signer
 		KeyUsage:              t.ku,
 		BasicConstraintsValid: t.ca || t.bcNonCA,
 		IsCA:                  t.ca,
-		PermittedDNSDomains:   t.permDNS,
-		ExcludedDNSDomains:    t.exclDNS,
+		PermittedDNSDomains:     t.permDNS,
+		ExcludedDNSDomains:      t.exclDNS,
+		PermittedIPRanges:       t.permIP,
+		ExcludedIPRanges:        t.exclIP,
+		PermittedEmailAddresses: t.permEmail,
+		ExcludedEmailAddresses:  t.exclEmail,
+		PermittedURIDomains:     t.permURI,
+		ExcludedURIDomains:      t.exclURI,
+		IPAddresses:             t.ips,
+		EmailAddresses:          t.emails,
 		DNSNames:              t.dns,
 		ExtKeyUsage:           t.eku,
 		SignatureAlgorithm:    alg,
@@ -202,6 +224,9 @@ func (p *pki) issue(t *truth, serial int64, signer *truth, signKey crypto.Signer
 		case p.c.Benign&bUnsetPathLen != 0:
 			tmpl.MaxPathLen = -1
 		}
+	}
+	for _, u := range t.uris {
+		tmpl.URIs = append(tmpl.URIs, mustURL(u))
 	}
 	if t.critExt {
 		tmpl.ExtraExtensions = []pkix.Extension{{Id: asn1.ObjectIdentifier{1, 2, 3, 4, 5, 99}, Critical: true, Value: []byte{5, 0}}}
@@ -281,7 +306,16 @@ func buildPKI(c chainCase) (*pki, error) {
 		p.ints = append(p.ints, newCA(fmt.Sprintf("C15 intermediate %d", j), c.IntKT[j], uint64(10+j), -730*day, 730*day))
 	}
 	p.leaf = &truth{name: "leaf.example.com", kt: c.LeafKT, key: keyFor(c.LeafKT, 20), notBefore: refInstant.Add(-30 * day), notAfter: refInstant.Add(30 * day),
-		ku: x509.KeyUsageDigitalSignature, pathLen: -1, dns: []string{"leaf.example.com", "www.Example.COM"}}
+		ku: x509.KeyUsageDigitalSignature, pathLen: -1, dns: []string{"leaf.example.com", "www.Example.COM"},
+		ips: []net.IP{{192, 0, 2, 10}}, emails: []string{"user@example.com"}, uris: []string{"https://example.com/leaf"}}
+	if c.Benign&bIntSAN != 0 {
+		for j, t := range p.ints {
+			t.dns = []string{fmt.Sprintf("ca%d.example.com", j)}
+			t.ips = []net.IP{{192, 0, 2, byte(20 + j)}}
+			t.emails = []string{fmt.Sprintf("ca%d@example.com", j)}
+			t.uris = []string{fmt.Sprintf("https://example.com/ca%d", j)}
+		}
+	}
 	if c.Benign&bLeafEKU != 0 {
 		p.leaf.eku = []x509.ExtKeyUsage{x509.ExtKeyUsageServerAuth}
 	}
@@ -294,6 +328,12 @@ func buildPKI(c chainCase) (*pki, error) {
 	if c.Benign&bNCSatisfied != 0 {
 		p.root.permDNS = []string{"example.com"}
 		p.root.exclDNS = []string{"bad.example.com"}
+		p.root.permIP = []*net.IPNet{cidr("192.0.2.0/24")}
+		p.root.exclIP = []*net.IPNet{cidr("198.51.100.0/24")}
+		p.root.permEmail = []string{"example.com"}
+		p.root.exclEmail = []string{"evil.org"}
+		p.root.permURI = []string{"example.com"}
+		p.root.exclURI = []string{"evil.org"}
 		if c.Benign&bCNOutside != 0 {
 			p.leaf.name = "leaf.example.org"
 		}
@@ -406,6 +446,44 @@ func buildPKI(c chainCase) (*pki, error) {
 	case fCriticalExt:
 		t := below[c.At%len(below)]
 		t.critExt, t.faulty = true, true
+	case fIntSAN:
+		// v: the intermediate whose own SAN offends; ca: a CA above it that carries
+		// the constraint (the root or a higher intermediate). Every path through
+		// ca also runs through v, so the fault sits on ca. Tight: excluded subtree,
+		// otherwise permitted subtree. The leaf's SANs conform in every variant.
+		j := c.At % k
+		v := p.ints[j]
+		ca := cas[(c.At/k)%(j+1)] // cas[0] root, cas[i+1] = ints[i]: indices 0..j are above ints[j]
+		ca.faulty = true
+		switch c.SANKind {
+		case 0:
+			if c.Tight {
+				ca.exclDNS, v.dns = []string{"bad.example.com"}, []string{"ca.BAD.example.com"}
+			} else {
+				ca.permDNS, v.dns = []string{"example.com"}, []string{"ca.example.org"}
+			}
+		case 1:
+			v.ips = []net.IP{{198, 51, 100, 7}}
+			if c.Tight {
+				ca.exclIP = []*net.IPNet{cidr("198.51.100.0/24")}
+			} else {
+				ca.permIP = []*net.IPNet{cidr("192.0.2.0/24")}
+			}
+		case 2:
+			v.emails = []string{"ca@evil.org"}
+			if c.Tight {
+				ca.exclEmail = []string{"evil.org"}
+			} else {
+				ca.permEmail = []string{"example.com"}
+			}
+		case 3:
+			v.uris = []string{"https://evil.org/ca"}
+			if c.Tight {
+				ca.exclURI = []string{"evil.org"}
+			} else {
+				ca.permURI = []string{"example.com"}
+			}
+		}
 	}
 	// who signs below[i]? below[i+1], or the root for the last one
 	signerOf := func(i int) *truth {
@@ -529,6 +607,66 @@ func dnsWithin(name, constraint string) bool {
 	return true
 }
 
+func cidr(s string) *net.IPNet {
+	_, n, err := net.ParseCIDR(s)
+	if err != nil {
+		panic(err)
+	}
+	return n
+}
+
+// The cases only use names for which RFC 5280 and the library's documented
+// reading agree: e-mail and URI names either lie on exactly the constraint's
+// host (example.com) or on an unrelated one (evil.org).
+func emailWithin(addr, constraint string) bool {
+	at := strings.LastIndex(addr, "@")
+	if strings.Contains(constraint, "@") {
+		cat := strings.LastIndex(constraint, "@")
+		return addr[:at] == constraint[:cat] && strings.EqualFold(addr[at+1:], constraint[cat+1:])
+	}
+	return dnsWithin(addr[at+1:], constraint)
+}
+
+func uriWithin(uri, constraint string) bool {
+	return dnsWithin(mustURL(uri).Hostname(), constraint)
+}
+
+func ipWithin(ip net.IP, n *net.IPNet) bool { return n.Contains(ip) }
+
+func checkKind[N any, C any](kind string, names []N, perm, excl []C, within func(N, C) bool, lower, ca string) string {
+	for _, name := range names {
+		for _, ex := range excl {
+			if within(name, ex) {
+				return fmt.Sprintf("%s %v of %s is excluded by %v in %s", kind, name, lower, ex, ca)
+			}
+		}
+		if len(perm) > 0 {
+			ok := false
+			for _, pm := range perm {
+				ok = ok || within(name, pm)
+			}
+			if !ok {
+				return fmt.Sprintf("%s %v of %s is not permitted by %v in %s", kind, name, lower, perm, ca)
+			}
+		}
+	}
+	return ""
+}
+
+// constrains reports why the name constraints of CA t forbid a SAN of lower ("" if none does).
+func (t *truth) constrains(lower *truth) string {
+	if why := checkKind("DNS name", lower.dns, t.permDNS, t.exclDNS, dnsWithin, lower.name, t.name); why != "" {
+		return why
+	}
+	if why := checkKind("IP address", lower.ips, t.permIP, t.exclIP, ipWithin, lower.name, t.name); why != "" {
+		return why
+	}
+	if why := checkKind("e-mail address", lower.emails, t.permEmail, t.exclEmail, emailWithin, lower.name, t.name); why != "" {
+		return why
+	}
+	return checkKind("URI", lower.uris, t.permURI, t.exclURI, uriWithin, lower.name, t.name)
+}
+
 type sigCache map[[2]*truth]bool
 
 // linkOK: child's signature verifies under parent's key (independent verifier),
@@ -603,22 +741,11 @@ func (p *pki) validate(cache sigCache, chain []*truth, roots []*truth) string {
 		if t.pathLen >= 0 && i-1 > t.pathLen {
 			return fmt.Sprintf("%s allows %d intermediates below it, the chain has %d", t.name, t.pathLen, i-1)
 		}
+		// name constraints of t apply to the SANs of EVERY certificate below it
+		// (isValid walks the whole current chain), for all four name kinds
 		for _, lower := range chain[:i] {
-			for _, name := range lower.dns {
-				for _, ex := range t.exclDNS {
-					if dnsWithin(name, ex) {
-						return fmt.Sprintf("DNS name %q of %s is excluded by %q in %s", name, lower.name, ex, t.name)
-					}
-				}
-				if len(t.permDNS) > 0 {
-					okName := false
-					for _, pm := range t.permDNS {
-						okName = okName || dnsWithin(name, pm)
-					}
-					if !okName {
-						return fmt.Sprintf("DNS name %q of %s is not permitted by %v in %s", name, lower.name, t.permDNS, t.name)
-					}
-				}
+			if why := t.constrains(lower); why != "" {
+				return why
 			}
 		}
 	}
@@ -881,6 +1008,7 @@ func genChainCase(rt *rapid.T, rootPool, otherPool []int, faults []int) chainCas
 		NowOff:     rapid.SampledFrom([]int64{0, 0, 1, -1, 3600, -7 * 86400, 29 * 86400, -29 * 86400}).Draw(rt, "now"),
 		Lazy:       rapid.Bool().Draw(rt, "lazy"),
 		ReqEKU:     rapid.SampledFrom([]int{0, 0, 1, 2, 3}).Draw(rt, "req-eku"),
+		SANKind:    rapid.IntRange(0, 3).Draw(rt, "san-kind"),
 	}
 	n := rapid.IntRange(0, 3).Draw(rt, "intermediates")
 	for i := 0; i < n; i++ {
@@ -900,6 +1028,7 @@ func allFaults() []int {
 	for f := 1; f < nFaults; f++ {
 		out = append(out, f)
 	}
+	out = append(out, fIntSAN, fIntSAN) // four name kinds x permitted/excluded share this fault
 	return out
 }
 
